@@ -236,6 +236,24 @@ class FrozenDict(dict):
         return hash(tuple(sorted((repr(k), repr(v)) for k, v in self.items())))
 
 
+def module_regexes(tree):
+    """{name: compiled pattern} of the module-level names bound once to re.compile(<literal>[, <flags>])"""
+    out = {}
+    env = {'re.S': _re_mod.S, 're.DOTALL': _re_mod.S, 're.ASCII': _re_mod.ASCII, 're.I': _re_mod.I, 're.IGNORECASE': _re_mod.I, 're.M': _re_mod.M}
+    consts = module_constants(tree)
+    env.update({k: v for k, v in consts.items() if isinstance(v, (int, str))})
+    for st in tree.body:
+        if isinstance(st, ast.Assign) and len(st.targets) == 1 and isinstance(st.targets[0], ast.Name) and isinstance(st.value, ast.Call) \
+                and isinstance(st.value.func, ast.Attribute) and st.value.func.attr == 'compile' and st.value.args:
+            try:
+                pat = ev(st.value.args[0], env)
+                flags = ev(st.value.args[1], env) if len(st.value.args) > 1 else 0
+                out[st.targets[0].id] = _re_mod.compile(pat, int(flags))
+            except Exception:
+                continue
+    return out
+
+
 def module_constants(tree):
     """{name: value} of the module-level names bound exactly once to a literal that ev can evaluate (numbers, strings,
     tuples, frozensets/sets and dicts of such) and not stored to anywhere else in the module"""
@@ -387,6 +405,28 @@ def ev(e, env, funcs=None):
             if isinstance(seq, tuple):
                 return seq[0] if seq else ev(e.args[1], env, funcs)
             raise NotClosed('next')
+        if isinstance(e.func, ast.Attribute) and e.func.attr in ('sub', 'subn', 'split', 'findall') and not e.keywords and 1 <= len(e.args) <= 2:
+            try:
+                recv_s = ev(e.func.value, env, funcs)
+            except NotClosed:
+                recv_s = None
+            if isinstance(recv_s, _re_mod.Pattern):
+                args_s = [ev(a_, env, funcs) for a_ in e.args]
+                if all(isinstance(a_, str) for a_ in args_s):
+                    r_s = getattr(recv_s, e.func.attr)(*args_s)
+                    return tuple(r_s) if isinstance(r_s, list) else r_s
+                raise NotClosed('regex ' + e.func.attr)
+        if isinstance(e.func, ast.Attribute) and e.func.attr in ('search', 'match', 'fullmatch') and not e.keywords and len(e.args) == 1:
+            # a compiled constant regex (put into the environment by a rule) applied to a constant string
+            try:
+                recv_p = ev(e.func.value, env, funcs)
+            except NotClosed:
+                recv_p = None
+            if isinstance(recv_p, _re_mod.Pattern):
+                arg_ = ev(e.args[0], env, funcs)
+                if not isinstance(arg_, str):
+                    raise TypeError('expected string')
+                return getattr(recv_p, e.func.attr)(arg_)
         if isinstance(e.func, ast.Attribute) and e.func.attr in ('group', 'groups', 'groupdict', 'start', 'end', 'span') and not e.keywords:
             # result of a constant regex applied to a constant string (put into the environment by a rule's oracle)
             try:
